@@ -904,3 +904,36 @@ theorem readData_ok {r : Reader} (inv : Inv r) (inflate : Nat → List UInt8 →
         · exact Or.inl ⟨_, rfl⟩
 
 end Tw.Datafile
+
+namespace Tw.Datafile
+
+theorem itemTypeIndices_ok {r : Reader} (inv : Inv r) (typeId : Nat) :
+    ∃ a b, r.itemTypeIndices typeId = .ok (a, b) ∧ a ≤ b ∧ b ≤ r.numItems.toNat := by
+  obtain ⟨a, b, e, h1, h2, _⟩ := itemTypeIndicesIn_ok r.numItems r.itemTypes typeId inv.types
+  exact ⟨a, b, e, h1, h2⟩
+
+/-- every item inside the range `item_type_indices(type_id)` returns carries that type id -/
+theorem item_of_type_range {r : Reader} (inv : Inv r) {typeId a b k : Nat}
+    (hr : r.itemTypeIndices typeId = .ok (a, b)) (hk1 : a ≤ k) (hk2 : k < b) :
+    ∃ v, r.item k = .ok v ∧ ViewOk r v ∧ v.typeId = typeId := by
+  obtain ⟨a', b', e, h1, h2, h3⟩ := itemTypeIndicesIn_ok r.numItems r.itemTypes typeId inv.types
+  unfold Reader.itemTypeIndices at hr
+  rw [e] at hr
+  cases hr
+  rcases h3 with h0 | ⟨t, ht, hty, ha, hb⟩
+  · cases h0; omega
+  · obtain ⟨w, size, hh, hw⟩ := inv.typeIds t ht k (by omega) (by omega)
+    obtain ⟨v, hv, hvok⟩ := item_ok inv (k := k) (by omega)
+    refine ⟨v, hv, hvok, ?_⟩
+    unfold Reader.item at hv
+    rw [hh] at hv
+    simp only at hv
+    repeat (split at hv; · simp at hv)
+    cases hv
+    simp only
+    unfold headerTypeId at hw
+    rw [← hty]
+    have : 0 ≤ w % 4294967296 := by omega
+    omega
+
+end Tw.Datafile
